@@ -819,8 +819,48 @@ class Interp:
     def m_encode(self, s, *a, **k):
         return SBytes(s.t)
 
-    def m_strip(self, s, *a):
-        raise Unsupported("strip() on a symbolic string")
+    def _strip(self, s, chars, left, right):
+        """s.strip/lstrip/rstrip(chars) for a concrete, non-empty set of characters: s = l ++ core ++ r with l, r made of
+        those characters only and core neither starting (if left) nor ending (if right) with one of them."""
+        if isinstance(chars, bytes):
+            chars = chars.decode("latin-1")
+        if not isinstance(chars, str) or not chars:
+            raise Unsupported("strip() without a concrete character set")
+        if isinstance(s, (str, bytes)):
+            return s
+        cls = type(s)
+        cset = lit(chars[0]) if len(chars) == 1 else None
+        one = f"(str.to_re {lit(chars[0])})" if len(chars) == 1 else "(re.union %s)" % " ".join(f"(str.to_re {lit(c)})" for c in chars)
+        core = self.P.fresh("core")
+        parts = []
+        if left:
+            l_ = self.P.fresh("lpad")
+            self.P.pc.append(f"(str.in_re {l_} (re.* {one}))")
+            self.P.pc.append(f"(not (str.in_re {core} (re.++ {one} re.all)))")
+            parts.append(l_)
+        parts.append(core)
+        if right:
+            r_ = self.P.fresh("rpad")
+            self.P.pc.append(f"(str.in_re {r_} (re.* {one}))")
+            self.P.pc.append(f"(not (str.in_re {core} (re.++ re.all {one})))")
+            parts.append(r_)
+        self.P.pc.append(f"(= {s.t} (str.++ {' '.join(parts)}))")
+        return cls(core)
+
+    def m_strip(self, s, chars=None):
+        if chars is None:
+            raise Unsupported("strip() of whitespace on a symbolic string")
+        return self._strip(s, chars, True, True)
+
+    def m_rstrip(self, s, chars=None):
+        if chars is None:
+            raise Unsupported("rstrip() of whitespace on a symbolic string")
+        return self._strip(s, chars, False, True)
+
+    def m_lstrip(self, s, chars=None):
+        if chars is None:
+            raise Unsupported("lstrip() of whitespace on a symbolic string")
+        return self._strip(s, chars, True, False)
 
     def m_lower(self, s):
         raise Unsupported("lower() on a symbolic string")
